@@ -83,7 +83,8 @@ fn gen_action(rng: &mut Rng, id: &str, tier: Tier) -> Finish {
                 }
             }
         }
-        _ => Finish::Drop,
+        8 => Finish::Drop,
+        _ => Finish::Panic,
     }
 }
 
@@ -149,6 +150,9 @@ impl Campaign for C01c {
                     delay2: 0,
                     finish: gen_action(&mut g, id, tier),
                 };
+                if single_thread && p.finish == Finish::Panic {
+                    p.finish = Finish::Drop;
+                }
                 if !single_thread {
                     match mode {
                         0 => p.delay = rank as u64 * MS,
